@@ -151,6 +151,8 @@ impl Module {
         section: wasmparser::ImportSectionReader,
         ids: &mut IndicesToIds,
     ) -> Result<()> {
+        #[cfg(walrus_verif)]
+        crate::verif::emit("interpret", "import", -1, -1);
         log::debug!("parse import section");
         for entry in section {
             let entry = entry?;
